@@ -117,6 +117,17 @@ def check_vector(v):
                         bad.append({"what": "text with a character outside alphabet %s was encoded without an error" % A,
                                     "tags": {"op": "encode-foreign", "alphabet": A, "byte": fb, "form": form},
                                     "vector": v, "expected": "raise", "observed": str(o)[:200], "case": {"data": data}})
+        # characters beyond Latin-1 whose code point is 256 * k above a member (or its lower-case form): not members of any alphabet
+        for m_ in members[:2]:
+            for cp in (256 + m_, 512 + m_, 256 + (m_ + 32 if 65 <= m_ <= 90 else m_), 65536 + m_):
+                for form, mk in (("str", lambda t: t), ("list", lambda t: [t, t[:1]]), ("npstr", lambda t: np.array([t, t[:1]]))):
+                    text_ = chr(members[0]) + chr(cp) + chr(members[0])
+                    o = outcome(lambda: bnp.as_encoded_array(mk(text_), e))
+                    n += 1
+                    if o[0] != "err":
+                        bad.append({"what": "text with a character outside alphabet %s was encoded without an error" % A,
+                                    "tags": {"op": "encode-foreign", "alphabet": A, "byte": cp, "form": form},
+                                    "vector": v, "expected": "raise", "observed": str(o)[:200], "case": {"data": [members[0], cp, members[0]]}})
         return {"n": n, "nt": nt, "bad": bad}
     # value machine
     if v["status"] == "fresh" or v["hist"][-1][0] == "reorder-labels":
